@@ -859,15 +859,8 @@ func (lr *libRun) c02Write(op LibOp, pts []model.Pt, now int64, pre, post []mode
 				}
 			}
 			idx := model.Index(coarse, base, st.T)
-			if verdict == 0 {
-				e.Note("c02-xff-float32-rational-ambiguity")
-				// accept either outcome, continue from the observed one
-				obs := post[lvl][idx]
-				if obs.I == st.T && model.SameValue(obs.V, st.Value) {
-					verdict = 1
-				} else {
-					verdict = -1
-				}
+			if st.Known > 0 && model.XffBoundary(int64(st.Known), int64(st.Total), xff) {
+				e.Probe("xff-boundary-where-float32-and-rational-differ")
 			}
 			if verdict > 0 {
 				want[idx] = model.Slot{I: st.T, V: st.Value}
